@@ -179,4 +179,58 @@ def c15(ctx):
     return core.finish(ctx, violations, cov, ["decorations are well-formed per mime.ParseMediaType (ill-formed ones are dropped and counted)"])
 
 
-REGISTRY = {"C07": c07, "C11": c11, "C12": c12, "C02": c02, "C15": c15}
+def c13(ctx):
+    prop = "C13"
+    quick = ctx.tier == "quick"
+    ctx.build_harness()
+    reps = []
+    design = []
+    for mode in ("csv", "nd"):
+        cfg = "MC_Lines_%s.cfg" % mode
+        if not quick:
+            _set_const(ctx, cfg, "MaxRows", 4 if mode == "nd" else 3)
+            if mode == "csv":
+                p = os.path.join(ctx.scratch, cfg)
+                open(p, "w").write(open(p).read().replace('SpecialKinds = {"e", "qd"}', 'SpecialKinds = {"e", "q", "qd", "qq"}'))
+        r = ctx.tlc_expect_ok("MC_Lines.tla", cfg, timeout=7000, xmx="30g", tag="lines_" + mode)
+        rp = os.path.join(ctx.scratch, "lines_%s.json" % mode)
+        ctx.vdrive(["linevec", "-in", r["out"], "-out", rp])
+        os.remove(r["out"])
+        reps.append(ctx.report(rp))
+        design.append(dict(mode=mode, states=r["distinct"]))
+    tdir = os.path.join(ctx.scratch, "lines")
+    os.makedirs(tdir)
+    rp = os.path.join(ctx.scratch, "linetrace.json")
+    ctx.vdrive(["linetrace", "-outdir", tdir, "-files", 400 if quick else 6000, "-seed", ctx.seed, "-out", rp, "-shards", core.NCPU])
+    trep = ctx.report(rp)
+    results = ctx.validate_traces("TraceLines.tla", "TraceLines.cfg", sorted(glob.glob(os.path.join(tdir, "*.ndjson"))))
+    violations = []
+    for rep in reps:
+        violations += _vio(rep, prop)
+    for r in results:
+        lines = None
+        for t in r["tuples"]:
+            if t[0] == "VIOLATION" and t[1] == prop:
+                if lines is None:
+                    lines = open(r["trace_file"]).readlines()
+                rec = json.loads(lines[t[2] - 1])
+                v = dict(property=prop, kind="trace:" + t[3], limit=rec["limit"], input_text="%s file, %d lines, header %d bytes" % (rec["kind"], len(rec["lines"]), rec["hl"]),
+                         detail="TraceLines.tla: %s; result %s" % (t[3], rec["result"]), record=rec)
+                v["key"] = "C13|%s|%s|%s|%s" % (t[3], rec["kind"], json.dumps(rec["lines"])[:200], rec["limit"])
+                violations.append(v)
+    cov = dict(
+        evaluations=sum(r["evaluations"] for r in reps) + trep["evaluations"],
+        vectors_replayed=sum(r["extra"]["vectors"] for r in reps),
+        distinct_nontrivial=sum(r["extra"]["must_accept_with_cut_inside_file"] for r in reps),
+        rule="exhaustive: abstract CSV/TSV files (2-3 record lines x 1-3 fields each, one special field: empty / quoted / quoted with delimiter / quoted with escaped quote, LF / CRLF, with / without final terminator, a blank or comment line inserted anywhere) and NDJSON files (2-%d lines from {object, array, number, string, blank, spaces, viable-but-incomplete, malformed, padded object}) rendered to bytes inside the specification and examined at EVERY limit 0..len+1; TLC checks the implementation-shaped acceptance against the reference on the abstract structure, and every (file, limit) is replayed on the real detectors and Detect. traces: %d generated larger files (RFC 4180 quoting, unicode, comments, ragged rows, damaged JSON lines) cut at every limit, validated by TraceLines.tla. non-trivial = well-formed files cut inside (limit <= length) after the second complete line" % (3 if quick else 4, trep["extra"]["files"]),
+        exhaustive=True,
+        design=design,
+        drift=sum(r["drift"] for r in reps),
+        exempt_higher_priority=sum(r["extra"]["exempt_higher_priority"] for r in reps),
+        trace_results=trep["extra"]["results"],
+        samples=reps[0]["samples"][:3] + reps[1]["samples"][:3] + trep["samples"][:2],
+    )
+    return core.finish(ctx, violations, cov, ["encoding/csv trusted", "records occupy one line each (no newline inside quotes)", "a leading empty line is not generated (dropLastLine ignores a newline at offset 0)"])
+
+
+REGISTRY = {"C13": c13, "C07": c07, "C11": c11, "C12": c12, "C02": c02, "C15": c15}
